@@ -150,6 +150,7 @@ package serf
 
 //@ func (s *Serf) eraseNode(m *memberState)
 //@   requires wf: wfMembers(s) && m != nil
+//@   requires eventch_open: s.config.EventCh == nil || !closed(s.config.EventCh)
 //@   ensures erased [C15]: !hasMember(s, m.Name)
 //@   ensures others_kept [C15]: forall(func(k string) bool {
 //@       return k != m.Name ==> hasMember(s, k) == old(hasMember(s, k)) && s.members[k] == old(s.members[k]) })
@@ -162,6 +163,7 @@ package serf
 
 //@ func (s *Serf) handlePrune(member *memberState)
 //@   requires wf_members: wfMembers(s) && member != nil && s.members[member.Name] == member
+//@   requires eventch_open: s.config.EventCh == nil || !closed(s.config.EventCh)
 //@   requires wf_failed_list: wfList(s.failedMembers)
 //@   requires wf_failed_a: listA(s, s.failedMembers, StatusFailed)
 //@   requires wf_failed_b: listB(s, s.failedMembers, StatusFailed)
@@ -191,6 +193,7 @@ package serf
 //@ func (s *Serf) handleNodeLeaveIntent(leaveMsg *messageLeave) (rebroadcast bool)
 //@   logcalls
 //@   requires wf: wfSerf(s) && leaveMsg != nil
+//@   requires eventch_open: s.config.EventCh == nil || !closed(s.config.EventCh)
 //@   oldlet m0, known0 := s.members[leaveMsg.Node]
 //@   oldlet it0, buffered0 := s.recentIntents[leaveMsg.Node]
 //@   oldlet st0 := m0.Status
@@ -255,6 +258,7 @@ package serf
 
 //@ func (s *Serf) handleNodeJoin(n *memberlist.Node)
 //@   requires wf: wfSerf(s) && n != nil
+//@   requires eventch_open: s.config.EventCh == nil || !closed(s.config.EventCh)
 //@   oldlet m0, known0 := s.members[n.Name]
 //@   oldlet st0 := m0.Status
 //@   oldlet lt0 := m0.statusLTime
@@ -286,6 +290,7 @@ package serf
 
 //@ func (s *Serf) handleNodeLeave(n *memberlist.Node)
 //@   requires wf: wfSerf(s) && n != nil
+//@   requires eventch_open: s.config.EventCh == nil || !closed(s.config.EventCh)
 //@   oldlet m0, known0 := s.members[n.Name]
 //@   oldlet st0 := m0.Status
 //@   oldlet lt0 := m0.statusLTime
@@ -313,6 +318,7 @@ package serf
 
 //@ func (s *Serf) handleNodeUpdate(n *memberlist.Node)
 //@   requires wf: wfSerf(s) && n != nil
+//@   requires eventch_open: s.config.EventCh == nil || !closed(s.config.EventCh)
 //@   oldlet known0 := hasMember(s, n.Name)
 //@   oldlet evN := sentN(s.config.EventCh)
 //@   let m, known := s.members[n.Name]
@@ -343,6 +349,7 @@ package serf
 
 //@ func (s *Serf) reap(lst []*memberState, now time.Time, timeout time.Duration) (ret []*memberState)
 //@   requires wf_members: wfMembers(s)
+//@   requires eventch_open: s.config.EventCh == nil || !closed(s.config.EventCh)
 //@   requires wf_list: wfList(lst)
 //@   requires in_members: forall(func(i int) bool { return 0 <= i && i < len(lst) ==> s.members[lst[i].Name] == lst[i] })
 //@   oldlet evN := sentN(s.config.EventCh)
@@ -367,7 +374,9 @@ package serf
 //@   loop 1 invariant subset [C15]: forall(func(j int) bool { c := cur[j]; return 0 <= j && j < n ==> old(inList(lst, c)) })
 //@   loop 1 invariant scanned [C15]: forall(func(j int) bool { return 0 <= j && j < i ==> !expired(s, cur[j], now, timeout) })
 //@   loop 1 invariant removed [C15]: forall(func(i0 int) bool {
-//@       return 0 <= i0 && i0 < len(lst) && !inList(cur, old(lst[i0])) ==> old(expired(s, lst[i0], now, timeout)) && !hasMember(s, old(lst[i0]).Name) })
+//@       return 0 <= i0 && i0 < len(lst) && !inList(cur, old(lst[i0])) ==> old(expired(s, lst[i0], now, timeout)) })
+//@   loop 1 invariant removed_erased [C15]: forall(func(i0 int) bool {
+//@       return 0 <= i0 && i0 < len(lst) && !inList(cur, old(lst[i0])) ==> !hasMember(s, old(lst[i0]).Name) })
 //@   loop 1 invariant members_kept [C15]: forall(func(k string) bool {
 //@       return hasMember(s, k) ==> old(hasMember(s, k)) && s.members[k] == old(s.members[k]) })
 //@   loop 1 invariant members_gone [C15]: forall(func(k string) bool {
@@ -387,6 +396,7 @@ package serf
 //@   ensures distinct_names [C35]: forall2(func(i, j int) bool { return 0 <= i && i < j && j < len(ret) ==> ret[i].Name != ret[j].Name })
 //@   ensures input_untouched [C35]: forall(func(i int) bool { return 0 <= i && i < len(members) ==> same(members[i], old(members[i])) })
 //@   loop 1 vars i int, kMembers []Member
+//@   loop 1 invariant counter [C35]: 0 <= i
 //@   loop 1 invariant size [C35]: 0 <= len(kMembers) && len(kMembers) <= k && len(kMembers) <= cap(kMembers) && !nilSlice(kMembers) && arrayAllocated(kMembers) && disjoint(kMembers, members)
 //@   loop 1 invariant from_members [C35]: forall(func(j int) bool { return 0 <= j && j < len(kMembers) ==>
 //@       exists(func(i0 int) bool { return 0 <= i0 && i0 < len(members) && same(kMembers[j], old(members[i0])) }) })
@@ -497,6 +507,7 @@ package serf
 //@ func (s *Serf) handleUserEvent(eventMsg *messageUserEvent) (rebroadcast bool)
 //@   logcalls
 //@   requires wf: wfEvents(s) && eventMsg != nil
+//@   requires eventch_open: s.config.EventCh == nil || !closed(s.config.EventCh)
 //@   case wrap_at_max: uint64(eventMsg.LTime) == maxU64()
 //@   oldlet seen0 := slotHas(s, eventMsg.LTime, eventMsg.Name, eventMsg.Payload)
 //@   oldlet c0 := s.eventClock.Time()
@@ -527,6 +538,7 @@ package serf
 
 //@ func (s *Serf) UserEvent(name string, payload []byte, coalesce bool) (err error)
 //@   requires wf: wfEvents(s)
+//@   requires eventch_open: s.config.EventCh == nil || !closed(s.config.EventCh)
 //@   oldlet q0 := logN("queued")
 //@   oldlet evN := sentN(s.config.EventCh)
 //@   oldlet mint0 := logN("mint.LamportClock.counter")
